@@ -80,6 +80,16 @@ def _snapshot(ns, r):
 
 def _do(ns, objs, handles, op):
     t, name, *args = op
+    if name == "setfilename":
+        try:
+            import os
+            tgt = _target(objs, handles, t)
+            tgt.filename = os.path.join(os.path.dirname(tgt.filename), "moved%d.json" % args[0])
+            return ("ok", "rebound")
+        except S.DeadlockAbort:
+            raise
+        except Exception as e:  # noqa: BLE001
+            return ("err", type(e).__name__)
     if name in ("center", "cexit", "enter", "exit"):
         try:
             if name == "center":
@@ -249,6 +259,22 @@ def gen_program(rng, fam, profile):
                 handles.append((oi, p))
     n_threads = 2 if rng.random() < 0.8 else 3
     threads = []
+    if profile == "rebind":
+        # `obj.filename = other` through one object while another thread writes through a second
+        # object on the same file (container values: nested collections are constructed under the
+        # file lock).  Only the lock discipline (C10) is judged.
+        if len(objs) == 1:
+            objs.append(0)
+        t0 = [("o1", "setfilename", 7)]
+        if rng.random() < 0.5:
+            t0.append(gen_op(rng, is_dict, init, [0, 0], [], False, profile)[:0] + ("o1",) + gen_op(rng, is_dict, init, [0, 0], [], False, profile)[1:])
+        t1 = []
+        for _ in range(rng.choice([1, 2])):
+            op = gen_op(rng, is_dict, init, [0], [hd for hd in handles if hd[0] == 0], False, profile)
+            t1.append(op)
+        if rng.random() < 0.7:
+            t1.insert(0, ("o0", "dsetitem", "n", {"m": {"k": 1}}) if is_dict else ("o0", "lappend", {"m": {"k": 1}}))
+        return Program(is_dict, inits, objs, [hd for hd in handles if hd[0] == 0], [t0, t1], None)
     if profile == "bufctx":
         buffered = None
         n_threads = 2
@@ -266,6 +292,18 @@ def gen_program(rng, fam, profile):
             reader = profile == "readers" and (t == 0 or rng.random() < 0.3)
             ops.append(gen_op(rng, is_dict, init, objs, handles, reader, profile))
         threads.append(ops)
+    if profile == "buffered" and inits and rng.random() < 0.45:
+        # C13 quantifies over reads "on objects no other thread is using": give one thread a
+        # private object on one of the files and let it start with a single-load read through it
+        # (len / get / item of a scalar / membership: one load, one atomic container access)
+        t = rng.randrange(len(threads))
+        p = len(objs)
+        objs.append(rng.choice(sorted(inits)))
+        if is_dict:
+            rd = rng.choice([("dlen",), ("dget", "a", None), ("dgetitem", "a"), ("dcontains", "a"), ("dcontains", "new")])
+        else:
+            rd = rng.choice([("llen",), ("lgetitem", 0), ("lgetitem", 3)])
+        threads[t].insert(rng.choice([0, 0, len(threads[t])]), ("o%d" % p,) + rd)
     return Program(is_dict, inits, objs, handles, threads, buffered)
 
 
@@ -364,7 +402,7 @@ def judge(prog, serial, run, profile):
     if run["thread_exc"]:
         v.append((("C09", "C13", "C14"), "crash", "a thread died: %s" % run["thread_exc"][0]))
         return v
-    CTX = ("center", "cexit", "enter", "exit")
+    CTX = ("center", "cexit", "enter", "exit", "setfilename")
     has_reader = any(op[1] not in MUTATORS and op[1] not in CTX for t in prog.threads for op in t)
     if any(op[1] in CTX for t in prog.threads for op in t):
         prog_buffered = True
@@ -393,6 +431,17 @@ def judge(prog, serial, run, profile):
         return v
     # readers present: per-op membership
     fins = [s["finals"] for s in serial]
+    if prog.buffered and not shared_reader_object(prog):
+        # reads only through objects no other thread uses: this is C13's territory
+        if run["finals"] not in fins:
+            v.append((("C13",), "lost-update", "final content %s is not the result of the writers in any serial order (a buffered update was lost or invented)" % run["finals"]))
+        for t, ops in enumerate(prog.threads):
+            for j, op in enumerate(ops):
+                got = run["results"][t][j] if j < len(run["results"][t]) else ("missing",)
+                allowed = {tuple(s["results"][t][j]) for s in serial}
+                if tuple(got) not in allowed:
+                    v.append((("C13",), "result:" + op[1], "T%d op %s returned %s; serially it returns one of %s" % (t, op, got, sorted(allowed))))
+        return v
     if run["finals"] not in fins:
         v.append((("C14",) + (("C13",) if prog.buffered else ()), "lost-update", "final content %s is not the result of the writers in any serial order (a writer's update was lost or invented)" % run["finals"]))
     for t, ops in enumerate(prog.threads):
